@@ -146,3 +146,96 @@ Example c09_witness :
   fin None [ETrySend; ETrySend; ETrySend; EClone; EDropH; EDropH] []
     = Some (0, false, WExited, [0; 1; 2], [SOk; SOk; SOk], true).
 Proof. vm_compute. repeat split; reflexivity. Qed.
+
+(* ==== added after the audit of 2026-10-02 (selftest/audit/REPORT-2026-10-02.md) ==== *)
+Require Import Cadence.Proofs.WriterThms.
+Require Import Cadence.Proofs.AuditQ.
+
+(* after the last drop EVERY background schedule (any order of worker, helper thread,
+   bookkeeping; any outcomes) is at most [mu s] events long, can be prolonged unless stuck, and
+   once stuck the worker has exited and the wrapped sink is released, everything accepted having
+   been delivered first, in order, with the outcomes the schedule's completions carried *)
+Theorem c09_any_schedule : forall cap handler evs s rs wevs s' wrs,
+  Queue.run true (init_q cap handler) evs = Some (s, rs) -> q_handles s = 0 ->
+  Forall worker_side wevs -> Queue.run true s wevs = Some (s', wrs) ->
+  length wevs <= mu s /\
+  (stuck true s' \/ exists ev s'', worker_side ev /\ Queue.step true s' ev = Some (s'', RNone)) /\
+  (stuck true s' ->
+     q_wk s' = WExited /\ sink_released s' = true /\
+     q_delivered s' = q_delivered s ++ combine (pending_ids s) (finish_outs wevs) /\
+     map fst (q_delivered s') = seq 0 (q_accepted s) /\ q_chan s' = [] /\ q_pill_pending s' = false).
+Proof. exact last_drop_any_schedule. Qed.
+
+(* [c09_stack] for an ARBITRARY fault script of the wrapped buffered sink's socket: once the
+   worker has exited the buffered sink has been driven with exactly the accepted metrics 0..n-1
+   in acceptance order and then dropped.  One result per metric; Ok carries the byte length; no
+   panic; an error / interrupted result is an outcome the socket returned during that very emit;
+   every datagram is framed (C05); the metrics whose emit answered Ok ([acked], characterised in
+   the 4th clause) and that fit a datagram were written, each once, whole lines, acceptance order,
+   except those still in the buffer after the drop ([bids w]) - and the buffer is empty after the
+   drop unless the socket refused the drop's own flush (then the log ends with that failed
+   attempt, numbered n); every acknowledged oversized metric went out exactly once on its own.
+   If the outcomes the worker saw are the writer's results, the error handler got exactly the
+   writer's error results, each once, in order. *)
+Theorem c09_stack_faults : forall cap handler evs s rs c e script pay xs w,
+  Queue.run true (init_q cap handler) evs = Some (s, rs) -> q_wk s = WExited ->
+  Writer.run c e script (delivered_ops pay (q_delivered s)) = (xs, w) ->
+  map fst (q_delivered s) = seq 0 (q_accepted s) /\
+  delivered_ops pay (q_delivered s) = map (fun i => Emit (pay i)) (seq 0 (q_accepted s)) /\
+  Forall2 (fun i x => match x with OOk k => k = length (pay i) | OPanic => False | _ => True end)
+          (seq 0 (q_accepted s)) xs /\
+  (forall i m, In (i, m) (acked 0 (delivered_ops pay (q_delivered s)) xs) <->
+               i < q_accepted s /\ m = pay i /\ exists k, nth_error xs i = Some (OOk k)) /\
+  (forall i er, nth_error xs i = Some (OErr er) ->
+     exists a, In a (lg w) /\ a_op a = i /\ a_out a = WErr er) /\
+  (forall i, nth_error xs i = Some OIntr ->
+     exists a, In a (lg w) /\ a_op a = i /\ a_out a = WIntr) /\
+  Forall (frame_ok c e) (lg w) /\
+  filter (nzb e) (sentL (lg w) ++ bids w) =
+    filter (nzb e) (fit_ids c e (acked 0 (delivered_ops pay (q_delivered s)) xs)) /\
+  sentA (lg w) = big_ids c e (acked 0 (delivered_ops pay (q_delivered s)) xs) /\
+  (bids w = [] \/ exists pre a er, lg w = pre ++ [a] /\ a_op a = q_accepted s /\ a_out a = WErr er) /\
+  (map snd (q_delivered s) = map sout_of xs ->
+   q_handled s = if handler then werrs (seq 0 (q_accepted s)) xs else []).
+Proof. exact stack_faults_life. Qed.
+
+(* joint non-vacuity of [c09_stack_faults] (and of [c16_stack]): a queue history (capacity 2,
+   refused emit, clone, last drop on a full queue) whose delivery outcomes ARE the results of the
+   writer (capacity 8, newline) driven with the delivered metrics under a fault script.
+   Script 1: emit 1 fails, the oversized metric 2 is interrupted, the drop's flush is refused
+   (4 and 5 stay in the buffer).  Script 2: the drop succeeds, nothing is left. *)
+Example c09_stack_joint_witness_1 :
+  let script := [WErr 5; WIntr; WOk; WErr 9]%N in
+  let o i := nth i [SOk; SErr 5; SErr 0; SOk; SOk; SOk] SOk in
+  match Queue.run true (init_q (Some 2) true) (wit_history o) with
+  | Some (s, rs) =>
+    let '(xs, w) := Writer.run 8 [10%N] script (delivered_ops wit_pay (q_delivered s)) in
+    let '(xs', w') := Writer.run_from (init 8 [10%N] script) 0 (delivered_ops wit_pay (q_delivered s)) in
+    q_wk s = WExited /\ q_accepted s = 6 /\ count_ok rs = 6 /\
+    map snd (q_delivered s) = map sout_of xs /\ xs' = xs /\
+    xs = [OOk 3; OErr 5%N; OIntr; OOk 2; OOk 4; OOk 1] /\
+    q_handled s = [(1, 5); (2, 0)] /\ q_handled s = werrs (seq 0 6) xs /\
+    map fst (acked 0 (delivered_ops wit_pay (q_delivered s)) xs) = [0; 3; 4; 5] /\
+    map fst (sentL (lg w)) = [0; 3] /\ map fst (bids w) = [4; 5] /\ sentA (lg w) = [] /\
+    map (fun a => (a_op a, a_out a)) (lg w) = [(1, WErr 5%N); (2, WIntr); (4, WOk); (6, WErr 9%N)] /\
+    map fst (bids w') = [4; 5] /\ length (lg w') = 3
+  | None => False
+  end.
+Proof. exact stack_joint_witness_1. Qed.
+
+Example c09_stack_joint_witness_2 :
+  let script := [WOk; WErr 5; WOk; WIntr; WErr 7]%N in
+  let o i := nth i [SOk; SOk; SErr 5; SOk; SOk; SErr 7] SOk in
+  match Queue.run true (init_q (Some 2) true) (wit_history o) with
+  | Some (s, rs) =>
+    let '(xs, w) := Writer.run 8 [10%N] script (delivered_ops wit_pay (q_delivered s)) in
+    q_wk s = WExited /\ map snd (q_delivered s) = map sout_of xs /\
+    xs = [OOk 3; OOk 5; OErr 5%N; OOk 2; OOk 4; OErr 7%N] /\
+    q_handled s = [(2, 5); (5, 7)] /\ q_handled s = werrs (seq 0 6) xs /\
+    map fst (acked 0 (delivered_ops wit_pay (q_delivered s)) xs) = [0; 1; 3; 4] /\
+    map fst (sentL (lg w)) = [0; 1; 3; 4] /\ bids w = [] /\ sentA (lg w) = [] /\
+    map (fun a => (a_op a, a_out a)) (lg w) =
+      [(1, WOk); (2, WErr 5%N); (3, WOk); (5, WIntr); (5, WErr 7%N); (6, WOk)]
+  | None => False
+  end.
+Proof. exact stack_joint_witness_2. Qed.
